@@ -53,7 +53,11 @@ def gen(src, tier):
         sc["pos"] = src.randint("pos", 0, B - 1)
         sc["ncp"] = src.randint("ncp", 0, 3)
         sc["nsteps"] = src.randint("nsteps", 3, 12)
-        sc["dt0"] = 10 ** src.uniform("dt0", -2.5, -0.7)
+        # the first step after an exact Taylor initialisation has a residual of size dt0^q / q!: below 1e-10 of the
+        # terms it is made of, the error estimate is rounding noise and every execution schedule (stepped, eager, jit,
+        # vmap) legitimately proposes a different second step (observed: std 4e-6 apart for q = 4, dt0 = 0.004).  Tiny
+        # dt0 is fault F5 of C01 / C06; here the initial step is kept well-conditioned.
+        sc["dt0"] = max(10 ** src.uniform("dt0", -2.5, -0.7), (math.factorial(q) * 1e-6) ** (1.0 / q))
     else:
         shapes = []
         total = 0
